@@ -240,6 +240,9 @@ func checkC15(c *Ctx) {
 	for _, f := range replaySlogCaller() {
 		c.Violation(f.Key, f.What, nil)
 	}
+	for _, f := range replaySlogCallerConcurrent() {
+		c.Violation(f.Key, f.What, map[string]interface{}{"mode": "slog-caller-concurrent"})
+	}
 	for _, f := range replayVolatileStackEnabler() {
 		c.Violation(f.Key, f.What, map[string]interface{}{"mode": "volatile-stack-enabler"})
 	}
@@ -757,6 +760,45 @@ func replayVolatileStackEnabler() (finds []Finding) {
 			if st := es[0].Stack; st != "" && (strings.Count(st, "main.c15deep\n") != 5 || !strings.Contains(st, "main.main\n")) {
 				add("C15/stack-incomplete", "stack-trace enabler answering %v on successive reads: entry %d carries a stack trace that is not the whole call chain: %q", pattern, i, st)
 			}
+		}
+	}
+	return finds
+}
+
+// replaySlogCallerConcurrent: several goroutines log through ONE zapslog.Handler with caller annotation, from two
+// different call sites. Each entry reports the call site slog recorded for that record.
+func replaySlogCallerConcurrent() (finds []Finding) {
+	core, logs := observer.New(zapcore.DebugLevel)
+	h := zapslog.NewHandler(core, zapslog.WithCaller(true))
+	lg := slog.New(h)
+	const G, N = 6, 3000
+	var wg sync.WaitGroup
+	lines := make([]int, G)
+	for g := 0; g < G; g++ {
+		wg.Add(1)
+		go func(g int) {
+			defer wg.Done()
+			for i := 0; i < N; i++ {
+				if g%2 == 0 {
+					c15slog(lg, slog.LevelInfo, &lines[g])
+				} else {
+					c15slogInfo(lg, &lines[g]) // this one carries the attribute k
+				}
+			}
+		}(g)
+	}
+	wg.Wait()
+	bad := 0
+	for _, e := range logs.All() {
+		g, want := 0, "main.c15slog"
+		if _, ok := e.ContextMap()["k"]; ok {
+			g, want = 1, "main.c15slogInfo"
+		}
+		if !e.Caller.Defined || e.Caller.Function != want || e.Caller.Line != lines[g] {
+			if bad == 0 {
+				finds = append(finds, Finding{Key: "C15/caller-differs", What: fmt.Sprintf("%d goroutines log through one slog handler with caller annotation from two call sites: a record of goroutine %d (call site %s, c15.go:%d) reports caller %s:%d (%s)", G, g, want, lines[g], e.Caller.File, e.Caller.Line, e.Caller.Function)})
+			}
+			bad++
 		}
 	}
 	return finds
